@@ -1,6 +1,229 @@
 /-
-C08 — property theorems (under construction).
+C08 — property theorems about the model of the CAP / SASL registration machine.
+
+Vocabulary.  `step cfg s m` is one `irc.feedMsg(m)` followed by draining the queues (stub driver);
+`.fast` is what was put on the fast queue (CAP, AUTHENTICATE, NICK, PONG … are all sent with `sendMsg`),
+`.st` the state afterwards.  `Reach cfg base s`: `s` is reachable from `Irc(network)` by any sequence of
+server messages and `irc.reset()` calls — the quantification over *all* histories.  The per-step theorems
+hold from every state whose fast queue is empty, in particular from every reachable one.
 -/
-import LimnoriaModel.C08.Lemmas
+import LimnoriaModel.C08.Trace
 namespace C08
+open Py
+open Gen.Conn (Fsm)
+
+/-! ### examples used for non-vacuity -/
+
+def exCfg : Cfg where
+  nick := ['b','o','t']
+  ident := ['i']
+  user := ['u']
+  password := []
+  alternates := [['%','s','_']]
+  mechanisms := [sPlain]
+  saslUser := ['u']
+  saslPass := ['p']
+  ecdsaKey := []
+  ecdsaKeyOk := false
+  certfile := false
+  required := false
+  joins := false
+  hasCrypto := true
+  realDriver := false
+  ssl := false
+  certValidation := false
+  verifyCerts := false
+  servers := []
+
+def exStar : Str := ['*']
+/-- `CAP * LS :echo-message labeled-response sasl` -/
+def exLs : Msg := ⟨sCAP, [exStar, ['L','S'], sEcho ++ [' '] ++ sLabeled ++ [' '] ++ sSasl], []⟩
+/-- `CAP * ACK :echo-message labeled-response sasl` -/
+def exAck : Msg := ⟨sCAP, [exStar, ['A','C','K'], sEcho ++ [' '] ++ sLabeled ++ [' '] ++ sSasl], []⟩
+/-- `AUTHENTICATE +` -/
+def exAuth : Msg := ⟨sAUTHENTICATE, [sPlus], []⟩
+/-- `903 bot :ok` -/
+def ex903 : Msg := ⟨num '9' '0' '3', [['b','o','t'], ['o','k']], []⟩
+
+def exS0 : St := (start exCfg {}).st
+def exS1 : St := (step exCfg exS0 exLs).st
+def exS2 : St := (step exCfg exS1 exAck).st
+def exS3 : St := (step exCfg exS2 exAuth).st
+
+theorem exS0_reach : Reach exCfg {} exS0 := .start
+theorem exS1_reach : Reach exCfg {} exS1 := .op (.msg exLs) exS0_reach
+theorem exS2_reach : Reach exCfg {} exS2 := .op (.msg exAck) exS1_reach
+theorem exS3_reach : Reach exCfg {} exS3 := .op (.msg exAuth) exS2_reach
+
+/-! ### req_subset -/
+
+/-- Every capability on a `CAP REQ` line was advertised by the server (is a key of `capabilities_ls` at
+that moment) and is one the bot wants (in `REQUEST_CAPABILITIES` at that moment) — for every state with an
+empty fast queue, every configuration and every server message. -/
+theorem req_subset (cfg : Cfg) (s : St) (m : Msg) (hq : s.fastq = []) (ws : List Str)
+    (h : Out.capReq ws ∈ (step cfg s m).fast) :
+    ∀ w ∈ ws, w ∈ keys (step cfg s m).st.ls ∧ w ∈ (step cfg s m).st.wanted :=
+  (reqOk_feedMsg hq ws h).1
+
+example : Out.capReq [sEcho, sLabeled, sSasl] ∈ (step exCfg exS0 exLs).fast ∧ exS0.fastq = [] := by decide
+
+/-- `REQUEST_CAPABILITIES` (a class attribute the code mutates) never holds anything but the extracted
+set and `sasl`, in any reachable state. -/
+theorem wanted_bounded (cfg : Cfg) (base s : St) (hb : ∀ c ∈ base.wanted, c ∈ Gen.Conn.requestCapabilities ∨ c = sSasl)
+    (r : Reach cfg base s) : ∀ c ∈ s.wanted, c ∈ Gen.Conn.requestCapabilities ∨ c = sSasl := by
+  have key : ∀ t : St, (α t).wantedOk = true ↔ ∀ c ∈ t.wanted, c ∈ Gen.Conn.requestCapabilities ∨ c = sSasl := by
+    intro t; simp [α, isWanted, List.all_eq_true]
+  rw [← key]
+  have hbase : (α base).wantedOk = true := (key base).mpr hb
+  induction r with
+  | start =>
+    show (α (drain (initSt cfg base))).wantedOk = true
+    rw [α_drain, α_initSt]; exact hbase
+  | op o _ ih =>
+    cases o with
+    | msg m =>
+      show (α (drain (feedMsg cfg m _).st)).wantedOk = true
+      rw [α_drain]; exact (wantedOk_moves (ref_feedMsg m _)).trans ih
+    | reset =>
+      show (α (drain (ircReset cfg _))).wantedOk = true
+      rw [α_drain, α_ircReset]; exact ih
+
+/-! ### echo_needs_label -/
+
+/-- A `CAP REQ` line contains `echo-message` only if `labeled-response` is on the same line or already
+acknowledged. -/
+theorem echo_needs_label (cfg : Cfg) (s : St) (m : Msg) (hq : s.fastq = []) (ws : List Str)
+    (h : Out.capReq ws ∈ (step cfg s m).fast) (he : sEcho ∈ ws) :
+    sLabeled ∈ ws ∨ sLabeled ∈ (step cfg s m).st.ack :=
+  (reqOk_feedMsg hq ws h).2 he
+
+example : Out.capReq [sEcho, sLabeled, sSasl] ∈ (step exCfg exS0 exLs).fast ∧ sEcho ∈ [sEcho, sLabeled, sSasl] := by decide
+
+/-! ### sasl_after_ack -/
+
+/-- SASL credentials (a payload chunk, the ecdsa signature, or the abort marker) are put on the queue
+only while handling a server `AUTHENTICATE` and only when the FSM was in INIT_SASL / CONNECTED_SASL. -/
+theorem sasl_payload_invited (cfg : Cfg) (s : St) (m : Msg) (hq : s.fastq = []) (o : Out)
+    (h : o ∈ (step cfg s m).fast) (hk : o.kind = .payload) :
+    dispatch m = .authenticate ∧ isSaslState s.fsm = true :=
+  payload_feedMsg hq (by simp only [α, List.mem_map]; exact ⟨o, h, hk⟩)
+
+example : Out.authPayload ['d','Q','B','1','A','H','A','='] ∈ (step exCfg exS2 exAuth).fast ∧ exS2.fastq = [] := by decide
+
+/-- A SASL state is entered only while handling `CAP ACK` / `CAP NAK` (the only callers of `capUpkeep`). -/
+theorem sasl_entered_by_ack (cfg : Cfg) (s : St) (m : Msg) (h0 : isSaslState s.fsm = false)
+    (h1 : isSaslState (step cfg s m).st.fsm = true) : dispatch m = .capAck ∨ dispatch m = .capNak := by
+  by_cases hk : handlerKinds (dispatch m) .startSasl = true
+  · revert hk; cases dispatch m <;> simp [handlerKinds]
+  · have := (noSaslEntry_moves (by simpa using hk) (ref_feedMsg (cfg := cfg) m s) h1).1
+    simp only [α] at this
+    rw [h0] at this; cases this
+
+example : isSaslState exS1.fsm = false ∧ isSaslState (step exCfg exS1 exAck).st.fsm = true := by decide
+
+/-- In every reachable state and for every server message: any AUTHENTICATE line the bot queues
+(mechanism name or credentials) is queued in an epoch in which a `CAP ACK` left `sasl` acknowledged
+(ghost `saslAcked`); being in a SASL state, or having `sasl` in the acknowledged set, implies the same. -/
+theorem sasl_after_ack (cfg : Cfg) (base s : St) (r : Reach cfg base s) (m : Msg) :
+    (∀ o ∈ (step cfg s m).fast, o.kind.sasl = true → (step cfg s m).st.saslAcked = true) ∧
+    (isSaslState s.fsm = true → s.saslAcked = true) ∧ (sSasl ∈ s.ack → s.saslAcked = true) := by
+  have hs := (absInv_sasl cfg).reach r
+  have hs' := saslQ_moves hs (ref_feedMsg (cfg := cfg) m s)
+  refine ⟨fun o ho hk => hs'.2.2 o.kind (by simp only [α, List.mem_map]; exact ⟨o, ho, rfl⟩) hk, hs.2.1, ?_⟩
+  intro h; exact hs.1 (by simpa [α] using h)
+
+example : Out.authMech ['P','L','A','I','N'] ∈ (step exCfg exS1 exAck).fast := by decide
+
+/-- The ghost `saslAcked` is raised only while handling `CAP ACK`. -/
+theorem saslAcked_only_by_ack (cfg : Cfg) (s : St) (m : Msg) (h0 : s.saslAcked = false)
+    (h1 : (step cfg s m).st.saslAcked = true) : dispatch m = .capAck := by
+  by_cases hk : handlerKinds (dispatch m) .ackPerm = true
+  · revert hk; cases dispatch m <;> simp [handlerKinds]
+  · have := acked_moves (by simpa using hk) (ref_feedMsg (cfg := cfg) m s) h1
+    simp only [α] at this
+    rw [h0] at this; cases this
+
+example : exS1.saslAcked = false ∧ (step exCfg exS1 exAck).st.saslAcked = true := by decide
+
+/-! ### cap_end_once -/
+
+/-- number of `CAP END` among queued messages -/
+def ends (l : List Out) : Nat := (l.map Out.kind).count .capEnd
+
+/-- In every reachable state the number of `CAP END` sent in the current connection epoch (ghost
+`endCount`) is 0, or it is 1 and the FSM has left the negotiation phase. -/
+theorem cap_end_once (cfg : Cfg) (base s : St) (r : Reach cfg base s) :
+    s.endCount = 0 ∨ (s.endCount = 1 ∧ lateState s.fsm = true) :=
+  (absInv_end cfg).reach r
+
+/-- The ghost counter counts exactly the `CAP END` lines put on the queue: within an epoch it grows by
+their number, and after a reset inside the step (real driver only) it equals the number queued since. -/
+theorem cap_end_counted (cfg : Cfg) (s : St) (m : Msg) (hq : s.fastq = []) :
+    ((step cfg s m).st.epoch = s.epoch ∧ (step cfg s m).st.endCount = s.endCount + ends (step cfg s m).fast) ∨
+    (s.epoch < (step cfg s m).st.epoch ∧ cfg.realDriver = true ∧ (step cfg s m).st.endCount = ends (step cfg s m).fast) := by
+  obtain ⟨extra, _, hcase⟩ := grown_of_moves (ref_feedMsg (cfg := cfg) m s)
+  have hk : (α s).kinds = [] := by simp [α, hq]
+  have hc : (connectKinds cfg).count .capEnd = 0 := by
+    rw [List.count_eq_zero]; intro hc; rcases connectKinds_mem hc with h | h <;> cases h
+  rcases hcase with ⟨h1, h2, h3⟩ | ⟨h1, h2, h3, h4⟩
+  · left
+    rw [hk, List.nil_append] at h2
+    exact ⟨h1, by show (α (feedMsg cfg m s).st).endCount = _; rw [h3]; unfold ends; show _ = _ + List.count _ (α (feedMsg cfg m s).st).kinds; rw [h2]; rfl⟩
+  · right
+    refine ⟨h1, h2, ?_⟩
+    show (α (feedMsg cfg m s).st).endCount = List.count _ (α (feedMsg cfg m s).st).kinds
+    rw [h4, h3, List.count_append, hc, Nat.zero_add]
+
+/-- A `CAP END` queued without an intervening reset comes from a step that started in
+INIT_CAP_NEGOTIATION (ACK/NAK/LS handling) or INIT_SASL (903–907 ending the exchange), and leaves the FSM
+past the negotiation: no authentication is in progress when it is sent. -/
+theorem cap_end_from_negotiation (cfg : Cfg) (s : St) (m : Msg) (hq : s.fastq = [])
+    (he : (step cfg s m).st.epoch = s.epoch) (h : Out.capEnd ∈ (step cfg s m).fast) :
+    (s.fsm = .INIT_CAP_NEGOTIATION ∨ s.fsm = .INIT_SASL) ∧ 2 ≤ rank (step cfg s m).st.fsm := by
+  have hcnt : 0 < ends (step cfg s m).fast := by
+    unfold ends; rw [List.count_pos_iff]; simp only [List.mem_map]; exact ⟨_, h, rfl⟩
+  have hlt : s.endCount < (step cfg s m).st.endCount := by
+    rcases cap_end_counted cfg s m hq with ⟨_, h2⟩ | ⟨h1, _, _⟩ <;> omega
+  exact capEnd_origin (ref_feedMsg (cfg := cfg) m s) he hlt
+
+example : Out.capEnd ∈ (step exCfg exS3 ex903).fast ∧ (step exCfg exS3 ex903).st.epoch = exS3.epoch ∧ exS3.fastq = [] := by decide
+
+/-! ### "no request outstanding" at CAP END: false for servers that send CAP NEW / CAP DEL mid-negotiation
+
+Full statement (FALSE on the pinned tree, known finding C08-capend-outstanding):
+  `∀ s m, Reach cfg base s → Out.capEnd ∈ (step cfg s m).fast →
+      subset (step cfg s m).st.req ((step cfg s m).st.ack ++ (step cfg s m).st.nak) = true`
+Proved below: the negation on a concrete reachable history (`CAP NEW` during INIT_SASL, then 903).  What
+does hold for every history is `cap_end_from_negotiation` (no authentication in progress) and
+`cap_end_once`. -/
+
+/-- `CAP * LS :sasl`, `CAP * ACK :sasl`, `CAP * NEW :batch` -/
+def exLsSasl : Msg := ⟨sCAP, [exStar, ['L','S'], sSasl], []⟩
+def exAckSasl : Msg := ⟨sCAP, [exStar, ['A','C','K'], sSasl], []⟩
+def exNewBatch : Msg := ⟨sCAP, [exStar, ['N','E','W'], ['b','a','t','c','h']], []⟩
+def exW1 : St := (step exCfg exS0 exLsSasl).st
+def exW2 : St := (step exCfg exW1 exAckSasl).st
+def exW3 : St := (step exCfg exW2 exNewBatch).st
+def exW4 : St := (step exCfg exW3 exAuth).st
+
+theorem exW4_reach : Reach exCfg {} exW4 :=
+  .op (.msg exAuth) (.op (.msg exNewBatch) (.op (.msg exAckSasl) (.op (.msg exLsSasl) .start)))
+
+/-- counter-example to the full statement: CAP END is queued while `batch` is requested and unanswered -/
+theorem cap_end_outstanding_witness :
+    Out.capEnd ∈ (step exCfg exW4 ex903).fast ∧
+    subset (step exCfg exW4 ex903).st.req ((step exCfg exW4 ex903).st.ack ++ (step exCfg exW4 ex903).st.nak) = false := by
+  decide
+
+/-! ### reset_fresh -/
+
+/-- the CAP / SASL / FSM / nick fields and the queues -/
+def visible (s : St) :=
+  (s.fsm, s.ls, s.req, s.ack, s.nak, s.saslNext, s.saslCur, s.saslAuth, s.dec, s.nick, s.altNicks, s.tried,
+   s.afterConnect, s.fastq, s.slowq, s.endCount, s.saslAcked)
+
+/-- After `Irc.reset()` — from any state whatsoever — every CAP/SASL/FSM/nick field and both queues are
+exactly what a newly constructed `Irc` has. -/
+theorem reset_fresh (cfg : Cfg) (s base : St) : visible (ircReset cfg s) = visible (initSt cfg base) := rfl
+
 end C08
